@@ -22,6 +22,10 @@ type BytePred struct {
 	// Stores collects `T[i] = v` assignments to package-level tables made by interpreted
 	// statements (table-filling init loops with constant bounds).
 	Stores map[types.Object]map[int64]int64
+	// Strings binds string or []byte variables to concrete bytes: s[i] and len(s) fold over them.
+	Strings map[types.Object][]byte
+	// Results holds the values of the last multi-value return statement that was interpreted.
+	Results []int64
 }
 
 type bpVal struct {
@@ -188,6 +192,12 @@ func (bp *BytePred) eval(info *types.Info, e ast.Expr, env bpEnv, depth int) (bp
 		if !ok || iv.Is {
 			return bpVal{}, false
 		}
+		if bs, bound := bp.Strings[obj]; bound {
+			if iv.I < 0 || iv.I >= int64(len(bs)) {
+				return bpVal{}, false
+			}
+			return bpVal{I: int64(bs[iv.I])}, true
+		}
 		for _, pk := range bp.P.All {
 			if pk.Types != obj.Pkg() {
 				continue
@@ -227,6 +237,11 @@ func (bp *BytePred) eval(info *types.Info, e ast.Expr, env bpEnv, depth int) (bp
 				return v, ok
 			}
 			return bpVal{I: truncate(tv.Type, v.I)}, true
+		}
+		if IsBuiltin(info, x, "len") && len(x.Args) == 1 {
+			if bs, bound := bp.Strings[ObjOf(info, x.Args[0])]; bound {
+				return bpVal{I: int64(len(bs))}, true
+			}
 		}
 		callee := Callee(info, x)
 		if callee == nil {
@@ -329,8 +344,30 @@ func (bp *BytePred) exec(info *types.Info, list []ast.Stmt, env bpEnv, depth int
 		}
 		switch s := st.(type) {
 		case *ast.ReturnStmt:
-			if len(s.Results) != 1 {
+			if len(s.Results) == 0 {
 				return bpVal{}, false, false
+			}
+			if len(s.Results) > 1 {
+				bp.Results = bp.Results[:0]
+				var first bpVal
+				for i, r := range s.Results {
+					v, ok := bp.eval(info, r, env, depth+1)
+					if !ok {
+						return bpVal{}, false, false
+					}
+					if i == 0 {
+						first = v
+					}
+					x := v.I
+					if v.Is {
+						x = 0
+						if v.B {
+							x = 1
+						}
+					}
+					bp.Results = append(bp.Results, x)
+				}
+				return first, true, true
 			}
 			v, ok := bp.eval(info, s.Results[0], env, depth+1)
 			return v, true, ok
